@@ -758,7 +758,7 @@ impl Space for CharTable {
         if l != s.chars().count() as f64 {
             bad.push(Violation::new("len-wrong-result", input("len"), json!({"got": l})));
         }
-        let mut utf8 = |name: &'static str, bytes: &[u8], wants: &[String], bad: &mut Vec<Violation>| {
+        let utf8 = |name: &'static str, bytes: &[u8], wants: &[String], bad: &mut Vec<Violation>| {
             match std::str::from_utf8(bytes) {
                 Err(_) => bad.push(Violation::new(format!("{name}-invalid-utf8"), input(name), json!({}))),
                 Ok(g) => {
